@@ -108,6 +108,19 @@ def rand_config(rnd, *, grad_scale=1.0, precond_kind=None, grafting_kind=None, a
     return cfg
 
 
+def stabilise_iterative(cfg, shapes, grad_scale):
+    """Coupled Newton / higher-order solvers have no spectrum shift and a float32 error floor: keep cond(factor + eps I) <~ 1e3 for the
+    whole run (exponential averaging so the factor stays bounded, small blocks, epsilon tied to the largest possible factor norm)."""
+    if cfg["precond"]["solver"]["type"] not in ("newton", "ho"):
+        return cfg
+    cfg["betas"][1] = 0.95 if cfg["betas"][1] == 1.0 else cfg["betas"][1]
+    cfg["max_preconditioner_dim"] = min(cfg["max_preconditioner_dim"], 8)
+    blk = max([1] + [math.prod(min(d, cfg["max_preconditioner_dim"]) for d in s) for s in shapes])
+    k = 1 if cfg["epsilon"] >= 0.05 * grad_scale**2 else 2
+    cfg["epsilon"] = (grad_scale * len(shapes)) ** 2 * blk * 10.0 ** (-k)
+    return cfg
+
+
 def rand_shapes(rnd, n_params=None, max_order=4, max_numel=400, min_order=0):
     n_params = n_params or rnd.randint(1, 4)
     shapes = []
